@@ -3,6 +3,7 @@ package main
 import (
 	"bytes"
 	"fmt"
+	"os"
 	"os/exec"
 	"sort"
 	"strings"
@@ -133,10 +134,14 @@ func splitNul(b []byte) []string {
 	return o
 }
 
+var shScratch = os.TempDir()
+
 func shRun(shell []string, script []byte) ([]byte, error) {
 	cmd := exec.Command(shell[0], shell[1:]...)
 	cmd.Stdin = bytes.NewReader(script)
-	cmd.Env = []string{"PATH=/usr/bin:/bin", "HOME=/nonexistent", "LC_ALL=C"}
+	// a quoting defect turns test strings into commands: no external programs, scratch cwd
+	cmd.Env = []string{"PATH=/nonexistent", "HOME=/nonexistent", "LC_ALL=C"}
+	cmd.Dir = shScratch
 	var ob bytes.Buffer
 	cmd.Stdout = &ob
 	err := cmd.Run()
@@ -173,6 +178,7 @@ func runC18(c *Ctx) {
 	r := c.Res
 	r.Rule = "strings: corpus + all single bytes 1..255 in 3 contexts + all (backslash,byte) pairs + PRNG mix of shell metacharacters, expansions, escapes, ASCII and non-ASCII runes (valid stream) and the same with invalid bytes inserted (extension stream); non-trivial = contains \\ \" $ ` newline or a byte >= 0x80; distinct = distinct input string. Each case: Go quoter vs Lean quote (byte equality), utf8.ValidString vs Lean validUtf8, /bin/sh and bash --posix on the Go-quoted word vs the original (property oracle) and vs Lean dqEval (shell-model validation); formatArgs cases: Go vs Lean formatArgs and real shells' word lists vs Lean shWords vs expected"
 	shells := c18Shells()
+	shScratch = c.Scratch
 	if len(shells) == 0 {
 		r.note("no POSIX shell found; shell-model validation skipped")
 	}
